@@ -203,7 +203,8 @@ pub fn score_offset_down(hit: &Hit) -> (ret: isize)
 }
 // @item rust/core/src/search/score.rs :: fn score_rating_up
 pub fn score_rating_up(hit: &Hit) -> (ret: isize)
-    requires hit.rating < 0x8000_0000,
+    // weakest precondition of `rating as isize` on a 64-bit target (the property bounds ratings by 2^31)
+    requires hit.rating <= 0x7fff_ffff_ffff_ffff,
     ensures ret == hit.rating,
 {
     hit.rating as isize
@@ -235,7 +236,7 @@ pub fn score_char_len_down(hit: &Hit) -> (ret: isize)
 }
 // @item rust/core/src/search/score.rs :: fn score
 pub fn score(query: &TextRef, hit: &mut Hit)
-    requires text_wf(&old(hit).title), text_wf(query), text_small(&old(hit).title), text_small(query), old(hit).rating < 0x8000_0000,
+    requires text_wf(&old(hit).title), text_wf(query), text_small(&old(hit).title), text_small(query), old(hit).rating <= 0x7fff_ffff_ffff_ffff,
     // C08: slot k of the score vector holds component k, in the documented priority order
     // (chars, words, tails, gaps, finished, offset, rating, word count, char count)
     ensures ({
